@@ -53,6 +53,14 @@ class ViaSocksPeer(Peer):
             del self.buf[:2 + self.buf[1]]
             self.conn.send(b'\x05\x00')
             self.state = 'request'
+            run = self.run
+            if run.mode == 'via' and run.boot and run.ch.chance(1, 5, 'sameport'):
+                # while this connection is pending, Tor reports an unrelated stream of another client (a LAN or IPv6
+                # client of a non-loopback SocksPort) that happens to use the same source PORT from another address
+                run.sim.probe('unrelated-stream-same-port-other-address')
+                port = self.conn.transport.getHost().port
+                run.w_stream_new(sport=port, saddr=run.ch.pick(['192.168.1.23', '[2001:db8::17]'], 'otheraddr'),
+                                 target=('lan%d.example' % port, 80))
         if self.state == 'request' and self.buf:
             r = parse_request(self.buf)
             if isinstance(r[0], dict):
@@ -132,7 +140,9 @@ class C09Run(StateRun):
             elif status in ('FAILED', 'CLOSED'):
                 peer.finish(False)
 
-    def w_stream_new(self, via=None, sport=None, target=None):
+    def w_stream_new(self, via=None, sport=None, target=None, saddr='127.0.0.1'):
+        if saddr != '127.0.0.1':
+            return StateRun.w_stream_new(self, via=via, sport=sport, target=target, saddr=saddr)
         # an unrelated stream may come from a local port that an earlier (finished) SOCKS connection used
         if sport is None and self.mode == 'via' and self.free_sports and self.ch.chance(1, 3, 'reuseport'):
             p = self.free_sports.pop(0)
@@ -188,6 +198,7 @@ class C09Run(StateRun):
         from txtorcon.torstate import TorState
         ch, sim = self.ch, self.sim
         c = Consult(len(self.consults), stream)
+        c.circuits_arg = circuits
         self.consults.append(c)
         if any(x.stream is stream for x in self.consults[:-1]):
             sim.fail('C09.attacher-consulted-twice', 'attacher asked twice about stream %d' % stream.id)
@@ -280,8 +291,19 @@ class C09Run(StateRun):
                 c.invalid = True
         self.sim.log('answer-resolved', c.n, c.sid, c.kind, c.expect)
 
+    def check_circuits_arg(self, c, when):
+        # "all currently available Circuit objects in the TorState": an attacher that answers later looks at it then
+        got = sorted(k for k in c.circuits_arg.keys())
+        want = sorted(mc.id for mc in self.model.circs.values() if mc.real is not None)
+        now = sorted(self.state.circuits.keys())
+        if got != now:
+            self.sim.fail('C09.attacher-circuits-not-live',
+                          'the circuits mapping handed to the attacher for stream %d lists %r %s, TorState.circuits lists %r (Tor: %r)' % (
+                              c.sid, got, when, now, want))
+
     def fire_answer(self):
         c, d = self.pending_answers.pop(0)
+        self.check_circuits_arg(c, 'when the attacher answers')
         self.resolve(c, immediate=False)
         d.callback(c.answer)
 
@@ -400,7 +422,13 @@ class C09Run(StateRun):
         if sum(1 for v in self.vias if not v['result']) >= 2:
             sim.probe('via-circuit-concurrent>=2')
         sim.log('stream_via', k, mc.id, mc.state)
-        ep = mc.real.stream_via(sim.reactor, host, 80, TCP4ClientEndpoint(sim.reactor, '127.0.0.1', 9050))
+        if ch.chance(1, 3, 'guessport'):
+            # no SOCKS endpoint given: the client endpoint tries Tor's well-known SOCKS ports itself
+            sim.probe('via-circuit-guessed-socks-port')
+            socks_ep = None
+        else:
+            socks_ep = TCP4ClientEndpoint(sim.reactor, '127.0.0.1', 9050)
+        ep = mc.real.stream_via(sim.reactor, host, 80, socks_ep)
         d = ep.connect(Factory.forProtocol(App))
         wc = self.circs.get(mc.id)
         if wc is not None and not wc.gone and ch.chance(1, 5, 'closeunder'):
